@@ -1,6 +1,7 @@
 package main
 
 import (
+	"os"
 	"io"
 	"crypto/md5"
 	"bytes"
@@ -85,6 +86,8 @@ type World struct {
 	// counts of item references (C15) are kept by the callbacks in CB when installed
 }
 
+var memOnlyTypedNil bool // memory-only stores are opened on a typed nil file (set per configuration: deterministic replays)
+
 func NewWorld(fileBacked bool, cb gkvlite.StoreCallbacks) (*World, error) {
 	w := &World{CB: cb, Timeout: 10 * time.Second}
 	var sf gkvlite.StoreFile
@@ -96,6 +99,10 @@ func NewWorld(fileBacked bool, cb gkvlite.StoreCallbacks) (*World, error) {
 	var err error
 	if fileBacked {
 		s, err = gkvlite.NewStoreEx(sf, cb)
+	} else if memOnlyTypedNil {
+		// a memory-only store is also what NewStore makes of a nil pointer of a file type
+		var typedNil *MemFile
+		s, err = gkvlite.NewStoreEx(typedNil, cb)
 	} else {
 		s, err = gkvlite.NewStoreEx(nil, cb)
 	}
@@ -331,6 +338,10 @@ func (w *World) do(op Op) string {
 		h.Closed = true
 		return "ok"
 	case "copyto":
+		if w.RC != nil {
+			w.RC.suspend()
+			defer w.RC.resume()
+		}
 		return w.copyTo(op, h)
 	case "copyfail":
 		// CopyTo onto a destination whose writes fail: must return an error and leave the source as it was
@@ -681,6 +692,9 @@ func (w *World) do(op Op) string {
 	case "len":
 		n, err := c.Len()
 		if err != nil {
+			if os.Getenv("VERIF_DEBUG") != "" {
+				fmt.Fprintln(os.Stderr, "len error:", err)
+			}
 			return "err"
 		}
 		return fmt.Sprintf("l:%d", n)
